@@ -76,7 +76,10 @@ fn main() -> ExitCode {
         return ExitCode::SUCCESS;
     }
 
-    let mut args: Vec<String> = env::args().collect();
+    // arguments that are not valid UTF-8 (a file name can be any bytes) must not abort the program
+    let mut args: Vec<String> = env::args_os()
+        .map(|arg| arg.to_string_lossy().to_string())
+        .collect();
     args.remove(0);
 
     let mut first_arg = args[0].to_ascii_lowercase();
